@@ -86,7 +86,7 @@ def make_assignment(cx, cname, depth, mode, only=None):
         extras.append(a)
     if info["extra"] and info["defs"] and mode in ("all", "random", "only") and cx.rng.random() < 0.35:
         # an UNDECLARED AVP that shares its code with a declared attribute but carries another vendor id
-        from diameter.message.avp.avp import get_avp_dictionary_entry
+        get_avp_dictionary_entry = O.dict_entry
         d = cx.rng.choice(info["defs"])
         for v2 in cx.rng.sample([9999999, 10415, 0, 5535], 4):
             if v2 != d[2] and get_avp_dictionary_entry(d[1], v2) is None:
@@ -300,7 +300,7 @@ def check(run):
     # AVP and the container's class name agree up to case and punctuation.  The deviations present in the library are
     # pinned here with their reason; anything else is reported.
     import re as _re
-    from diameter.message.avp.avp import get_avp_dictionary_entry as _entry
+    _entry = O.dict_entry
 
     def _norm(x):
         return _re.sub(r"[^a-z0-9]", "", x.lower())
@@ -467,7 +467,7 @@ def check(run):
         # oracle: names and multiplicities
         want = {}
         for (c, f, v, p) in canon:
-            e = O.A.get_avp_dictionary_entry(c, v)
+            e = O.dict_entry(c, v)
             nm = (e["name"] if e else "Unknown").replace("-", "_").lower()
             want[nm] = want.get(nm, 0) + 1
         for nm, k in want.items():
